@@ -11,6 +11,7 @@
 #![allow(dead_code)]
 mod argvgen;
 mod c02;
+mod c03;
 mod c12;
 mod c13;
 mod c14;
